@@ -270,6 +270,7 @@ func genCase(t *rapid.T) Case {
 	var n int
 	if rapid.Bool().Draw(t, "grammar?") {
 		o := gen.AllFreedoms
+		o.MaxAlien = 300
 		o.MaxPayload = 200
 		if rapid.IntRange(0, 9).Draw(t, "bigPayloads?") == 0 {
 			o.MaxPayload = 70000
